@@ -163,6 +163,11 @@ func RunCheck(id string, opt Options) int {
 	}()
 	tgen := time.Since(t0).Seconds()
 	e.Discharge()
+	nConfirmed, nDisagree := 0, 0
+	if opt.Tier == "thorough" {
+		nConfirmed, nDisagree = e.crossCheck()
+		e.Assumed[fmt.Sprintf("thorough tier: every discharged path query was also given to the other solvers (5 s each): %d confirmed by a second solver, %d disagreements, the rest timed out there", nConfirmed, nDisagree)] = true
+	}
 	groups := e.Groups()
 
 	// known findings
